@@ -570,6 +570,7 @@ pub proof fn lemma_insert_view(b0: Seq<u8>, b: Seq<u8>, idx: int, key: Seq<u8>, 
         b.subrange(24 + 2 * idx + 2, 24 + 2 * pg_count(b0) + 2) == b0.subrange(24 + 2 * idx, 24 + 2 * pg_count(b0)),
         b.subrange(pg_begin(b0) - (vlen(key.len() as u32) + key.len() + 8), pg_begin(b0)) == venc(key.len() as u32) + key + le64(payload),
     ensures leaf_wf(b), leaf_cells(b) == leaf_cells(b0).insert(idx, (key, payload)),
+        pg_count(b) == pg_count(b0) + 1, pg_begin(b) == pg_begin(b0) - (vlen(key.len() as u32) + key.len() + 8),
 {
     let c = pg_count(b0);
     let bg = pg_begin(b0);
@@ -639,6 +640,9 @@ impl<'a> Page<'a> {
 //@| requires leaf_wf(old(self).b()), key@.len() <= 0x7fff_ffff_ffff_ffff,
 //@| ensures *final(final(self).buf) == *final(old(self).buf), r is Err ==> final(self).b() == old(self).b(),
 //@|     r is Ok ==> leaf_wf(final(self).b()) && leaf_cells(final(self).b()) == leaf_cells(old(self).b()).insert(idx as int, (key@, payload)),
+//@|     // the cell goes directly below the old content area; the sibling link is not touched
+//@|     r is Ok ==> pg_begin(final(self).b()) == pg_begin(old(self).b()) - (vlen(key@.len() as u32) + key@.len() + 8)
+//@|         && final(self).b().subrange(16, 24) == old(self).b().subrange(16, 24),
 //@|     r is Ok <==> key@.len() <= u32::MAX && idx <= pg_count(old(self).b())
 //@|         && 24 + 2 * pg_count(old(self).b()) + 2 + vlen(key@.len() as u32) + key@.len() + 8 <= pg_begin(old(self).b()),
 //@prewrite "&mut self.buf[cell_off..cell_off + var_len]" => "v_arr_range_mut(self.buf, cell_off, cell_off + var_len)"
@@ -691,6 +695,7 @@ impl<'a> Page<'a> {
 //@|     }
 //@| }
 //@| lemma_insert_view(b0, b, idx as int, key@, payload);
+//@| assert(b.subrange(16, 24) =~= b0.subrange(16, 24));
 //@end
 }
 
@@ -704,12 +709,26 @@ impl<'a> Page<'a> {
 // C26.page.init_leaf.spec — a fresh leaf is well formed, empty, and has no right sibling.
 //@extract nervusdb-storage/src/index/btree.rs Page::init_leaf
 //@| ensures *final(final(self).buf) == *final(old(self).buf), leaf_wf(final(self).b()), pg_count(final(self).b()) == 0, leaf_cells(final(self).b()) =~= Seq::<(Seq<u8>, u64)>::empty(),
-//@|     from_le64(final(self).b().subrange(16, 24)) == 0,
+//@|     from_le64(final(self).b().subrange(16, 24)) == 0, pg_begin(final(self).b()) == 8192,
 //@prewrite "self.buf.fill(0);" => "v_fill(self.buf, 0);"
 //@prewrite "self.buf[OFF_MAGIC..OFF_MAGIC + 4].copy_from_slice(&MAGIC);" => "v_slice_write(self.buf, OFF_MAGIC, &MAGIC);"
 //@proof before 1 "=}"
 //@| let b = self.b();
 //@| lemma_le16_len(0u16); lemma_le16_len(8192u16); lemma_le64_len(0u64);
+//@| assert(b.subrange(0, 4) =~= magic4());
+//@end
+}
+
+impl<'a> Page<'a> {
+// C26.page.init_internal.spec — a fresh internal page is well formed, has no separators and the given leftmost child.
+//@extract nervusdb-storage/src/index/btree.rs Page::init_internal
+//@| ensures *final(final(self).buf) == *final(old(self).buf), internal_wf(final(self).b()), pg_count(final(self).b()) == 0, pg_begin(final(self).b()) == 8192,
+//@|     int_child(final(self).b(), 0) == leftmost_child.0,
+//@prewrite "self.buf.fill(0);" => "v_fill(self.buf, 0);"
+//@prewrite "self.buf[OFF_MAGIC..OFF_MAGIC + 4].copy_from_slice(&MAGIC);" => "v_slice_write(self.buf, OFF_MAGIC, &MAGIC);"
+//@proof before 1 "=}"
+//@| let b = self.b();
+//@| lemma_le16_len(0u16); lemma_le16_len(8192u16); lemma_le64_len(0u64); lemma_le64_len(leftmost_child.0);
 //@| assert(b.subrange(0, 4) =~= magic4());
 //@end
 }
@@ -780,6 +799,7 @@ pub proof fn lemma_internal_insert_view(b0: Seq<u8>, b: Seq<u8>, idx: int, key: 
         b.subrange(pg_begin(b0) - (8 + vlen(key.len() as u32) + key.len()), pg_begin(b0)) == le64(child) + venc(key.len() as u32) + key,
     ensures internal_wf(b), int_seps(b) == int_seps(b0).insert(idx, key), int_children(b) == int_children(b0).insert(idx, child),
         int_child(b, 0) == int_child(b0, 0),
+        pg_count(b) == pg_count(b0) + 1, pg_begin(b) == pg_begin(b0) - (8 + vlen(key.len() as u32) + key.len()),
 {
     let c = pg_count(b0);
     let bg = pg_begin(b0);
@@ -853,7 +873,8 @@ impl<'a> Page<'a> {
 //@| ensures *final(final(self).buf) == *final(old(self).buf), r is Err ==> final(self).b() == old(self).b(),
 //@|     r is Ok ==> internal_wf(final(self).b()) && int_seps(final(self).b()) == int_seps(old(self).b()).insert(idx as int, key@)
 //@|         && int_children(final(self).b()) == int_children(old(self).b()).insert(idx as int, right_child.0)
-//@|         && int_child(final(self).b(), 0) == int_child(old(self).b(), 0),
+//@|         && int_child(final(self).b(), 0) == int_child(old(self).b(), 0)
+//@|         && pg_begin(final(self).b()) == pg_begin(old(self).b()) - (8 + vlen(key@.len() as u32) + key@.len()),
 //@|     r is Ok <==> key@.len() <= u32::MAX && idx <= pg_count(old(self).b())
 //@|         && 32 + 2 * pg_count(old(self).b()) + 2 + 8 + vlen(key@.len() as u32) + key@.len() <= pg_begin(old(self).b()),
 //@prewrite "&mut self.buf[cell_off + 8..cell_off + 8 + var_len]" => "v_arr_range_mut(self.buf, cell_off + 8, cell_off + 8 + var_len)"
@@ -923,6 +944,11 @@ impl Pager {
     pub fn write_page(&mut self, page_id: PageId, page: &[u8; PAGE_SIZE]) -> (r: Result<()>)
         ensures forall|o: u64| o != page_id.0 ==> #[trigger] pg(final(self), o) == pg(old(self), o),
             r is Ok ==> pg(final(self), page_id.0) == page@,
+    { unimplemented!() }
+    //@trusted Pager::allocate_page: handing out a page changes no page's content (which page it is - one that was free - is the subject of unit c18_pager)
+    #[verifier::external_body]
+    pub fn allocate_page(&mut self) -> (r: Result<PageId>)
+        ensures forall|o: u64| #[trigger] pg(final(self), o) == pg(old(self), o),
     { unimplemented!() }
 }
 //@item nervusdb-storage/src/index/btree.rs struct BTree
